@@ -433,6 +433,17 @@ func (o offer) nontrivial() bool {
 func gen(seed uint64, idx int) Case {
 	var c Case
 	for attempt := 0; attempt < 30; attempt++ {
+		c = gen1(seed, idx, attempt)
+		if c.offers().nontrivial() {
+			break
+		}
+	}
+	return c
+}
+
+func gen1(seed uint64, idx int, attempt int) Case {
+	var c Case
+	{
 		r := mon.NewRng(seed, 11, uint64(idx)*64+uint64(attempt))
 		c = Case{Index: idx, Legacy: r.Pick([]string{"strict", "medium", "strict"}), Concurrent: r.Bool()}
 		nAgg := r.Range(2, 4)
@@ -446,11 +457,56 @@ func gen(seed uint64, idx int) Case {
 			keys[aggKeyOf(a)] = true
 			c.Aggs = append(c.Aggs, a)
 		}
-		for n := r.Range(0, 2); n > 0; n-- {
-			c.Blacklist = append(c.Blacklist, blacklistPool[r.Intn(len(blacklistPool))])
+		hasDrop := false
+		for _, a := range c.Aggs {
+			hasDrop = hasDrop || a.DropRaw
+		}
+		if !hasDrop {
+			c.Aggs[r.Intn(len(c.Aggs))].DropRaw = true
+		}
+		// names the rules can emit (before considering blacklist and rewriters): the blacklist
+		// entries, rewriters and route filters are drawn with a bias towards hitting them
+		var outs []string
+		for _, a := range c.Aggs {
+			for _, name := range uni {
+				if a.M.match(name) {
+					outs = append(outs, a.outName(name))
+				}
+			}
+		}
+		hitsBl := func(b MSpec) bool {
+			for _, o := range outs {
+				if b.match(o) {
+					return true
+				}
+			}
+			return false
+		}
+		hitsRw := func(w RWSpec) bool {
+			for _, o := range outs {
+				if w.do(o) != o {
+					return true
+				}
+			}
+			return false
 		}
 		for n := r.Range(0, 2); n > 0; n-- {
-			c.Rewriters = append(c.Rewriters, rewriterPool[r.Intn(len(rewriterPool))])
+			b := blacklistPool[r.Intn(len(blacklistPool))]
+			for try := 0; try < 6 && !hitsBl(b) && r.Chance(4, 5); try++ {
+				b = blacklistPool[r.Intn(len(blacklistPool))]
+			}
+			c.Blacklist = append(c.Blacklist, b)
+		}
+		nrw := r.Range(0, 2)
+		if len(c.Blacklist) == 0 && nrw == 0 {
+			nrw = 1
+		}
+		for n := nrw; n > 0; n-- {
+			w := rewriterPool[r.Intn(len(rewriterPool))]
+			for try := 0; try < 6 && !hitsRw(w) && r.Chance(4, 5); try++ {
+				w = rewriterPool[r.Intn(len(rewriterPool))]
+			}
+			c.Rewriters = append(c.Rewriters, w)
 		}
 		c.Routes = []MSpec{{}} // route 0 has no filter: sees everything the table routes
 		for n := r.Range(1, 4); n > 0; n-- {
@@ -482,9 +538,6 @@ func gen(seed uint64, idx int) Case {
 			now += maxW + 20
 		}
 		c.Rounds = append(c.Rounds, nil) // a last round of ticks without new input: nothing more may come out
-		if c.offers().nontrivial() {
-			break
-		}
 	}
 	return c
 }
